@@ -212,7 +212,9 @@ BigAgrees(nd, a, kind, k) ==
 RECURSIVE View(_, _), MayFail(_, _), Hops(_)
 View(nd, kind) ==
   CASE nd.t = "mem" -> IF nd.absent /\ kind # "repos" THEN {} ELSE nd.s
-    [] nd.t \in {"debug", "http", "fail"} -> View(nd.x, kind)
+    [] nd.t \in {"debug", "http"} -> View(nd.x, kind)
+    \* what a failing source can list at all (a listing that has to go beyond fails)
+    [] nd.t = "fail" -> {x \in View(nd.x, kind) : x < nd.at}
     [] nd.t = "select" -> IF kind = "repos" THEN View(nd.x, kind) \cap nd.p ELSE View(nd.x, kind)
     [] nd.t = "sub" -> IF kind = "repos" THEN {x - nd.lo : x \in {y \in View(nd.x, kind) : InSub(nd, y)}} ELSE View(nd.x, kind)
     [] nd.t = "unify" -> View(nd.x, kind) \cup View(nd.y, kind)
